@@ -246,13 +246,14 @@ Fixpoint upsert_row (id : N) (j : json) (t : table) : table :=
 Definition delete_row (id : N) (t : table) : table :=
   filter (fun r => negb (N.eqb id (fst r))) t.
 
-(* ORDER BY id (ids are unique: primary key) *)
-Fixpoint insert_by_id (r : N * json) (l : table) : table :=
+(* ORDER BY id (ids are unique: primary key): insertion sort on the id *)
+Fixpoint insert_pair {A} (r : N * A) (l : list (N * A)) : list (N * A) :=
   match l with
   | [] => [r]
-  | x :: l' => if N.ltb (fst r) (fst x) then r :: l else x :: insert_by_id r l'
+  | x :: l' => if N.ltb (fst r) (fst x) then r :: l else x :: insert_pair r l'
   end.
-Definition order_by_id (t : table) : table := fold_right insert_by_id [] t.
+Definition sort_pairs {A} (l : list (N * A)) : list (N * A) := fold_right insert_pair [] l.
+Definition order_by_id (t : table) : table := sort_pairs t.
 
 Inductive res (A : Type) := ROk (a : A) | RErr | RPanic.
 Arguments ROk {A} a.
@@ -631,13 +632,7 @@ Definition resolve (objs : list obj) (x : istep) : option step :=
 Definition res_map {A B} (f : A -> B) (r : res A) : res B :=
   match r with ROk a => ROk (f a) | RErr => RErr | RPanic => RPanic end.
 
-(* the issue list has no ORDER BY: the harness observes it sorted by id *)
-Fixpoint insert_pair {A} (r : N * A) (l : list (N * A)) : list (N * A) :=
-  match l with
-  | [] => [r]
-  | x :: l' => if N.ltb (fst r) (fst x) then r :: l else x :: insert_pair r l'
-  end.
-Definition sort_pairs {A} (l : list (N * A)) : list (N * A) := fold_right insert_pair [] l.
+(* the issue list has no ORDER BY: the harness observes it sorted by id (sort_pairs) *)
 
 Definition answer (objs : list obj) (s : state) (q : query) : qobs :=
   let ip := fun (p : patch) => index_of objs (OP p) in
